@@ -94,7 +94,7 @@ func C01(ctx *core.Ctx) int {
 	progs := replayFilter(ctx, codecPrograms(ctx))
 	cases := buildCases(ctx, progs, maxDevFor(ctx))
 	langs := devLangs()
-	runCodec(ctx, cases, langs)
+	langs = runCodec(ctx, cases, langs)
 	st := newCodecStats()
 	for _, pc := range cases {
 		for _, l := range langs {
